@@ -12,7 +12,7 @@ theorem C17_dedup_eq (ts ts' : List Torrent)
     (hinj : ∀ t ∈ ts ++ ts', ∀ u ∈ ts ++ ts', t.infoHash = u.infoHash → t = u)
     (hmem : ∀ t, t ∈ ts ↔ t ∈ ts') :
     dedupTorrents (sortTorrents ts) = dedupTorrents (sortTorrents ts') := by
-  sorry
+  exact RunO.dedup_sort_eq ts ts' hinj hmem
 
 /-- hence the whole run — result, log, tree, counters, table, work list — is identical for any two presentations of
     the same set of torrents (any order, any repetition) -/
@@ -20,6 +20,7 @@ theorem C17_run_perm (H : Bytes → Bytes) (inp : RunIn) (ts' : List Torrent)
     (hinj : ∀ t ∈ inp.torrents ++ ts', ∀ u ∈ inp.torrents ++ ts', t.infoHash = u.infoHash → t = u)
     (hmem : ∀ t, t ∈ inp.torrents ↔ t ∈ ts') :
     run H { inp with torrents := ts' } = run H inp := by
-  sorry
+  exact RunO.run_torrents_congr H inp ts' (RunO.isEmpty_eq_of_mem _ _ hmem)
+    (RunO.dedup_sort_eq inp.torrents ts' hinj hmem).symm
 
 end TB
